@@ -1,9 +1,10 @@
 """C02 - NASA-7 / NASA-9 / Shomate are internally consistent polynomials."""
+import ast
 import itertools
 from fractions import Fraction as Fr
 
 from ..nf import Rat, C
-from ..source import Unsupported, AnchorError
+from ..source import Unsupported, AnchorError, params
 from ..xlate import Interp, Obj, ListV, Elem, SumV, Raised, RankOrder
 from .common import (same, show, deriv, is_zero, slots_in, coeff_vector, mix_opaque, sel_opaque,
                      sub, atoms_of)
@@ -308,6 +309,17 @@ def class_rules(run, repo, max_len):
                 arr.is_array = True
                 owner, fn = repo.find_method(o.ci, 'get_' + q)
                 got = I.call_method(o, 'get_' + q, [], {'T': arr})
+                hz = list(I.dtype_hazards)
+                if n == 2:
+                    # the container of temperatures may hold integers (np.arange(300, 2000, 250)): a result
+                    # buffer that takes its element type from it truncates every value stored into it
+                    hm = repo.modules.get([mm for mm in repo.modules if repo.modules[mm].relpath == hz[0][1]][0]) \
+                        if hz else owner.module
+                    run.check(not hz, 'BRANCH-TWIN.dtype', '%s.%s.get_%s' % (modname, kind, q), 'integer temperatures',
+                              'a result buffer is created with the element type of the caller\'s temperature '
+                              'container and real values are stored into it: with integer temperatures the array '
+                              'result is truncated and differs from element-by-element evaluation', hm,
+                              hz[0][0] if hz else fn)
                 each = [I.call_method(o, 'get_' + q, [], {'T': t}) for t in Ts]
                 if n == 1 and isinstance(got, (Rat, SumV)):
                     got = ListV([got])      # documented: size-1 input may come back as a scalar
@@ -326,6 +338,42 @@ def class_rules(run, repo, max_len):
                          'evaluation %s (a 1-element array stored into a scalar slot raises in numpy)'
                          % (n, show(got), show(ListV(each))), owner.module, fn)
     return n_bt
+
+
+def integer_temperatures(run, repo):
+    """numpy refuses a negative integer power of an integer: an evaluator that raises its temperature argument
+    to such a power without first making it a float cannot be evaluated at T=300 / np.arange(...) temperatures,
+    which the sibling evaluators accept"""
+    n = 0
+    for modname in (NASA, SHO):
+        m = repo.module(modname)
+        for fname, fn in sorted(m.functions.items()):
+            if not fname.startswith('get_'):
+                continue
+            names = set(params(fn)[0])
+            floated = {}
+            for st in ast.walk(fn):
+                if isinstance(st, ast.Assign) and len(st.targets) == 1 and isinstance(st.targets[0], ast.Name) and \
+                        isinstance(st.value, ast.Call) and isinstance(st.value.func, ast.Name) and \
+                        st.value.func.id == 'float':
+                    floated.setdefault(st.targets[0].id, st.lineno)
+            for node in ast.walk(fn):
+                if not (isinstance(node, ast.BinOp) and isinstance(node.op, ast.Pow) and
+                        isinstance(node.left, ast.Name) and node.left.id in names):
+                    continue
+                e = node.right
+                neg = isinstance(e, ast.UnaryOp) and isinstance(e.op, ast.USub) and \
+                    isinstance(e.operand, ast.Constant) and isinstance(e.operand.value, int)
+                if not neg:
+                    continue
+                n += 1
+                ok = node.left.id in floated and floated[node.left.id] < node.lineno
+                run.check(ok, 'TYPE.negpow', '%s.%s' % (modname.split('.')[-1], fname), 'integer temperatures',
+                          '%s is raised to a negative integer power without having been made a float: numpy '
+                          'refuses this for integer temperatures (T=300 reaches here as np.int64), so the species '
+                          'cannot be evaluated there although its sibling evaluators can'
+                          % node.left.id, m, node)
+    return n
 
 
 def check(run, repo):
@@ -352,6 +400,7 @@ def check(run, repo):
     run.floor('Nasa9._get_nasa positions', n, 20)
     nbt = class_rules(run, repo, 5 if thorough else 3)
     run.floor('BRANCH-TWIN instances', nbt, 36)
+    run.extra['negative integer powers of an argument'] = integer_temperatures(run, repo)
     run.extra['array_length_bound'] = 5 if thorough else 3
 
 
